@@ -60,9 +60,13 @@ const fName = "fo"
 
 // ---- errors ----
 
-type berr struct{ n int64 } // builder error
+type berr struct { // builder error; wraps the error of the build context when that context is already done
+	n     int64
+	cause error
+}
 
 func (e berr) Error() string { return fmt.Sprintf("builder error %d", e.n) }
+func (e berr) Unwrap() error { return e.cause }
 
 type ferr struct{ n int64 } // injected backend fault
 
@@ -122,6 +126,8 @@ type BuildPlan struct {
 	Val int64   `json:"val"`
 	Err int64   `json:"err"`
 	Upd []int64 `json:"upd,omitempty"`
+	// CancelMid: the caller's context is cancelled while the builder runs (between its entry and exit)
+	CancelMid bool `json:"cancelMid,omitempty"`
 }
 
 // FEngine steers Gets on one Failover instance inside a synctest bubble.
@@ -130,21 +136,24 @@ type FEngine struct {
 	conf FConf
 	rng  *rand.Rand
 
-	mu       sync.Mutex
-	parked   map[int]*parked
-	trace    []FEv
-	returned map[int]bool
-	results  map[int]string
-	plans    map[int]BuildPlan // per tid: outcome of its (single) builder invocation
-	faults   map[int]int64     // per tid: fault to inject at the call-out being released (0 = none)
-	ctxObs   []map[string]any  // what builders saw of their context (C06)
-	nextTok  int64
-	nextErr  int64
-	nextFlt  int64
-	builds   map[int]int // builder invocations per tid
-	keys     map[int][]byte
-	tids     []int
-	mark     int
+	mu        sync.Mutex
+	parked    map[int]*parked
+	trace     []FEv
+	returned  map[int]bool
+	results   map[int]string
+	cancels   map[int]context.CancelFunc
+	cancelled map[int]bool      // per tid: its CancelFunc has been called
+	deadlines map[int]int64     // per tid: absolute deadline of the caller's context (0 = none)
+	plans     map[int]BuildPlan // per tid: outcome of its (single) builder invocation
+	faults    map[int]int64     // per tid: fault to inject at the call-out being released (0 = none)
+	ctxObs    []map[string]any  // what builders saw of their context (C06)
+	nextTok   int64
+	nextErr   int64
+	nextFlt   int64
+	builds    map[int]int // builder invocations per tid
+	keys      map[int][]byte
+	tids      []int
+	mark      int
 
 	inner Backend
 	stats *Stats
@@ -435,7 +444,7 @@ func (r *FEngine) build(ctx context.Context) (int64, error) {
 
 	_, hasDeadline := ctx.Deadline()
 	obs := map[string]any{"tid": tid, "bg": isBg(ctx), "errAtEntry": fmt.Sprint(ctx.Err()), "doneNil": ctx.Done() == nil, "deadline": hasDeadline,
-		"ttlAtEntry": int64(cache.TTL(ctx)), "skipRead": cache.SkipRead(ctx)}
+		"ttlAtEntry": int64(cache.TTL(ctx)), "skipRead": cache.SkipRead(ctx), "nowAtEntry": time.Now().UnixNano(), "cancelledAtEntry": r.isCancelled(tid)}
 
 	r.record(ctx, FEv{Tid: tid, Kind: "bstart", Text: "build-start"})
 	r.park(tid, "bentry")
@@ -444,10 +453,24 @@ func (r *FEngine) build(ctx context.Context) (int64, error) {
 		cache.WithTTL(ctx, time.Duration(u), true)
 	}
 
+	if plan.CancelMid {
+		// the caller goes away in the middle of the build
+		r.mu.Lock()
+		c := r.cancels[tid]
+		r.mu.Unlock()
+
+		if c != nil {
+			r.markCancelled(tid)
+			c()
+		}
+	}
+
 	r.park(tid, "bexit")
 
 	obs["errAtExit"] = fmt.Sprint(ctx.Err())
 	obs["valueVisible"] = ctx.Value(tidKey{}) != nil
+	obs["nowAtExit"] = time.Now().UnixNano()
+	obs["cancelledAtExit"] = r.isCancelled(tid)
 
 	r.mu.Lock()
 	r.ctxObs = append(r.ctxObs, obs)
@@ -461,7 +484,59 @@ func (r *FEngine) build(ctx context.Context) (int64, error) {
 
 	r.record(ctx, FEv{Tid: tid, Kind: "bend", Coq: "(inr " + Z(plan.Err) + ")", Text: fmt.Sprintf("build-end err(%d)", plan.Err)})
 
-	return 0, berr{plan.Err}
+	// a builder interrupted by its context reports that context's error (wrapped), as real builders do
+	return 0, berr{n: plan.Err, cause: ctx.Err()}
+}
+
+func (r *FEngine) markCancelled(tid int) {
+	r.mu.Lock()
+	r.cancelled[tid] = true
+	r.mu.Unlock()
+}
+
+func (r *FEngine) isCancelled(tid int) bool {
+	r.mu.Lock()
+	defer r.mu.Unlock()
+
+	return r.cancelled[tid]
+}
+
+// CtxObsCoq renders one builder-context observation as a ctxobs term of Ctx.v. The caller's context is
+// Background <- WithValue(tid) <- [WithCancel] <- [WithTimeout] <- [WithTTL] <- [WithSkipRead] (innermost last here,
+// first in the term).
+func CtxObsCoq(o map[string]any, g GetSpec, deadlineAt int64) string {
+	var layers []string
+
+	if g.Skip {
+		layers = append(layers, "LValue 3 1")
+	}
+
+	if g.HasCell {
+		layers = append(layers, "LValue 2 1")
+	}
+
+	if deadlineAt != 0 {
+		layers = append(layers, fmt.Sprintf("LDeadline %s", Z(deadlineAt)))
+	}
+
+	if g.Cancel || g.CancelBefore || g.Plan.CancelMid {
+		layers = append(layers, fmt.Sprintf("LCancel %s", N(uint64(g.Tid))))
+	}
+
+	layers = append(layers, fmt.Sprintf("LValue 1 %s", N(uint64(g.Tid))))
+
+	cset := func(b bool) string {
+		if b {
+			return List([]string{N(uint64(g.Tid))})
+		}
+
+		return "[]"
+	}
+
+	return fmt.Sprintf("(mkCtxObs %s %s %s %s %s %s %s %s %s %s 1 %s)", Bool(o["bg"].(bool)), List(layers),
+		cset(o["cancelledAtEntry"].(bool)), Z(o["nowAtEntry"].(int64)), cset(o["cancelledAtExit"].(bool)), Z(o["nowAtExit"].(int64)),
+		Bool(o["errAtEntry"] == "<nil>"), Bool(o["errAtExit"] == "<nil>"), Bool(o["doneNil"].(bool)), Bool(o["deadline"].(bool)),
+		Bool(o["valueVisible"].(bool)))
 }
 
 // ---- engine ----
@@ -470,7 +545,7 @@ func (r *FEngine) build(ctx context.Context) (int64, error) {
 func NewFEngine(t *testing.T, rng *rand.Rand, conf FConf) *FEngine {
 	r := &FEngine{
 		t: t, conf: conf, rng: rng, parked: map[int]*parked{}, returned: map[int]bool{}, results: map[int]string{},
-		plans: map[int]BuildPlan{}, faults: map[int]int64{}, builds: map[int]int{}, keys: map[int][]byte{}, stats: NewStats(), PcStats: map[string]int{},
+		plans: map[int]BuildPlan{}, cancels: map[int]context.CancelFunc{}, cancelled: map[int]bool{}, deadlines: map[int]int64{}, faults: map[int]int64{}, builds: map[int]int{}, keys: map[int][]byte{}, stats: NewStats(), PcStats: map[string]int{},
 		nextTok: 100, nextErr: 1, nextFlt: 1000,
 	}
 
@@ -589,7 +664,8 @@ type GetSpec struct {
 	SleepBefore     int64     `json:"sleepBefore,omitempty"`
 	ExpireAllBefore bool      `json:"expireAllBefore,omitempty"` // the backend's ExpireAll is called right before this Get
 	Cancel          bool      `json:"cancelAfterReturn"`
-	Deadline        int64     `json:"deadlineIn,omitempty"` // caller context carries a deadline this far in the future
+	CancelBefore    bool      `json:"cancelBeforeCall,omitempty"` // the caller's context is already cancelled when Get is called
+	Deadline        int64     `json:"deadlineIn,omitempty"`       // caller context carries a deadline this far in the future
 	Rewrite         bool      `json:"rewriteKeyAfterReturn"`
 }
 
@@ -709,8 +785,13 @@ func (r *FEngine) start(g GetSpec, tids *[]int) {
 
 	var cancel context.CancelFunc
 
-	if g.Cancel {
+	if g.Cancel || g.CancelBefore || g.Plan.CancelMid {
 		ctx, cancel = context.WithCancel(ctx)
+
+		if g.CancelBefore {
+			r.markCancelled(g.Tid)
+			cancel()
+		}
 	}
 
 	if g.Deadline > 0 {
@@ -718,6 +799,10 @@ func (r *FEngine) start(g GetSpec, tids *[]int) {
 
 		ctx, c2 = context.WithTimeout(ctx, time.Duration(g.Deadline))
 		_ = c2
+
+		r.mu.Lock()
+		r.deadlines[g.Tid] = time.Now().UnixNano() + g.Deadline
+		r.mu.Unlock()
 	}
 
 	if g.HasCell {
@@ -730,6 +815,7 @@ func (r *FEngine) start(g GetSpec, tids *[]int) {
 
 	r.mu.Lock()
 	r.plans[g.Tid] = g.Plan
+	r.cancels[g.Tid] = cancel
 	r.keys[g.Tid] = append([]byte{}, g.Key...)
 	r.mu.Unlock()
 
@@ -773,6 +859,7 @@ func (r *FEngine) start(g GetSpec, tids *[]int) {
 		}
 
 		if cancel != nil {
+			r.markCancelled(g.Tid)
 			cancel()
 		}
 
